@@ -300,6 +300,12 @@ def corr(run: Run, ctx) -> None:
     formatting (refereed by eval), alias coverage."""
     from . import _generic as g
     g.run_corr(run, ctx, "vf.corr.c01", "Imports/Annot/AliasCover", quick=0.5, thorough=4.0)
+    # the schema type resolver: annotation text, flags and the ordered add_import requests of the REAL OpenAPISchemaResolver on random
+    # IRSchema trees vs Pog.Resolve; oracle = names of the annotation (ast) are builtins or were requested.  The two bare-return hazards
+    # proved as counterexamples are function-level (no document was ever shown to reach them): informational.
+    g.run_corr(run, ctx, "vf.corr.resolve", "Resolve (OpenAPISchemaResolver vs Pog.Resolve)", quick=0.3, thorough=3.0)
+    g.run_oracle(run, ctx, g.Informational(findings.Known(run, PROP)), "vf.corr.resolve", "annotation names are imported (real resolver)",
+                 {"resolve.named_no_stem_no_import": "-hazard", "resolve.string_enum_no_import": "-hazard"}, quick=0.3, thorough=3.0)
 
 
 def search(run: Run, ctx) -> None:
